@@ -194,7 +194,7 @@ pub fn run_part(ctx: &Ctx, r: &mut Report) {
     let mut c = Counts::default();
     let mut n_states = 0u64;
     'outer: for (kind, name) in kinds {
-        let (base, w) = w3::build(kind, name, [false, false, false]);
+        let (base, w) = w3::build(kind, name, [false, false, false], None);
         let vs = variants(&w, thorough);
         for (root, prefix, l) in states(&w, &base, thorough) {
             n_states += 1;
@@ -230,7 +230,7 @@ pub fn replay_part(case: &Value) -> Option<Result<(), String>> {
     }
     let name = case["world"].as_str()?;
     let kind = if name.ends_with("t22") { Kind::T22 } else { Kind::Spl };
-    let (base, w) = w3::build(kind, name, [false, false, false]);
+    let (base, w) = w3::build(kind, name, [false, false, false], None);
     let root = case["root"].as_str()?;
     let seq = w3::roots(&w).into_iter().find(|r| r.0 == root)?.1;
     let mut l = w3::apply_all3(&base, &w, &seq);
